@@ -216,6 +216,26 @@ def run(rep):
                 rep.ok("patterns", k, sample=pats[k])
             else:
                 rep.fail("patterns", k, "pattern identity does not follow from the response form: " + pats[k])
+    # ---- the operators the documented patterns are written with: `challenge * scalar` and `challenge.to_scalar()`
+    rep.rule("challenge-ops", "the documented patterns are written as `challenge * x` / `challenge.to_scalar() * x`: both denote the field product with the challenge scalar the responses were built with")
+    mul = [b for b in trait_method_impls(prog, "std::ops::Mul", "mul") if b.desc.get("self_ty") == ("adt", CHAL, ())]
+    tsc = method(prog, CHAL, "to_scalar")
+    if rep.anchor("Mul<Scalar> for Challenge", mul) and rep.anchor("Challenge::to_scalar", tsc):
+        for b in mul:
+            rep.fn(b)
+            Sm = Session(prog)
+            v = Sm.eval(b)
+            if v is not None and Sm.same(v, ("mul", fld(arg(1), 0), arg(2))):
+                rep.ok("challenge-ops", "Challenge * Scalar", sample="self.0 * rhs")
+            else:
+                rep.fail("challenge-ops", "Challenge * Scalar", "`challenge * x` is not the field product of the challenge scalar and x: %s - every documented pattern written with it fails on honest proofs" % (Sm.show(v) if v is not None else None), site=b.loc())
+        rep.fn(tsc)
+        Sm = Session(prog)
+        v = Sm.eval(tsc)
+        if v is not None and Sm.same(v, fld(arg(1), 0)):
+            rep.ok("challenge-ops", "Challenge::to_scalar", sample="returns the challenge scalar unchanged")
+        else:
+            rep.fail("challenge-ops", "Challenge::to_scalar", "to_scalar does not return the stored challenge scalar: %s" % (Sm.show(v) if v is not None else None), site=tsc.loc())
     rep.assumptions += ["run-time equality of two computed challenges is not executed: it follows from transcript identity (same-challenge)",
                         "signature-proof completeness assumes the signature randomiser is non-zero (probability 1 - 1/q)"]
 
